@@ -320,4 +320,11 @@ C09c_Cers ==
 C03cq_Cers == { c \in C03c_Cers : c[3].req.chal = "c32" /\ c[3].req.cdmode # "extra" /\ c[1].req.residentKey = "required" }
 C02cq_Cers == { c \in C02c_Cers : Len(c) = 3 \/ c[1].req.chal \in {"c0", "c32"} }
 
+-----------------------------------------------------------------------------
+(* C18: getInfo through both APIs                                           *)
+C18i_Cfgs == { [BaseCfg EXCEPT !.hmac = h, !.uvCap = u, !.upCap = p, !.disc = d] :
+                 h \in {"off", "uvonly"}, u \in {"none", "unconfigured", "configured"}, p \in BOOLEAN,
+                 d \in {"full", "nondisc", "forced"} }
+C18i_Cers == { << Cer("ctap2", "info", BaseReq, [BaseEnv EXCEPT !.cancelAt = k]) >> : k \in {-1, 0, 1} }
+
 =============================================================================
